@@ -16,7 +16,7 @@ Proof.
   destruct c as [mc mt lc]; destruct lc;
   destruct f as [s i r fl l a o hl]; destruct e as [| | | | |code id k data].
   all: try (destruct s; reflexivity).
-  all: try (unfold conformsb, classify, step, timeout; cbn; destruct (r >? 0); destruct s; reflexivity).
+  all: try (unfold conformsb, classify, step, timeout; cbn; destruct a; destruct (r >? 0); destruct s; reflexivity).
   all: unfold conformsb, classify; unfold_events; cbn;
     destruct (code_of code); destruct s; try destruct k; cbn; brk; cbn in *; try discriminate; try reflexivity.
 Qed.
@@ -35,7 +35,7 @@ Proof.
   destruct f as [s i r fl l a o hl]; destruct e as [| | | | |code id k data].
   all: try (left; destruct s; reflexivity).
   all: try (destruct s; try (left; reflexivity); right; left; exists ROpen; split; reflexivity).
-  all: try (left; unfold conformsb, classify, step, timeout; cbn; destruct (r >? 0); destruct s; reflexivity).
+  all: try (left; unfold conformsb, classify, step, timeout; cbn; destruct a; destruct (r >? 0); destruct s; reflexivity).
   all: unfold conformsb, classify, ncp_lcp_code; unfold_events; cbn;
     destruct (code_of code); destruct s; try destruct k; cbn; brk; cbn in *; try discriminate;
       try (left; reflexivity); try (right; right; reflexivity); right; left; eexists; split; reflexivity.
@@ -48,7 +48,7 @@ Proof.
   destruct c as [mc mt lc]; cbn; intros FC ->; destruct v as [fc fn]; cbn in FC; subst fc; destruct fn;
   destruct f as [s i r fl l a o hl]; destruct e as [| | | | |code id k data].
   all: try (destruct s; reflexivity).
-  all: try (unfold conformsb, classify, step, timeout; cbn; destruct (r >? 0); destruct s; reflexivity).
+  all: try (unfold conformsb, classify, step, timeout; cbn; destruct a; destruct (r >? 0); destruct s; reflexivity).
   all: unfold conformsb, classify; unfold_events; cbn;
     destruct (code_of code); destruct s; try destruct k; cbn; brk; cbn in *; try discriminate; try reflexivity.
 Qed.
@@ -60,7 +60,7 @@ Lemma counter_ok c v f e :
 Proof.
   destruct f as [s i r fl l a o hl]; destruct e as [| | | | |code id k data].
   1-4: destruct s; destruct v as [[|] [|]]; reflexivity.
-  - unfold counter_after, step, timeout; cbn. destruct (r >? 0); destruct s; reflexivity.
+  - unfold counter_after, step, timeout; cbn. destruct a; destruct (r >? 0); destruct s; reflexivity.
   - unfold counter_after; unfold_events; cbn.
     destruct (code_of code); destruct s; try destruct k; try (destruct v as [[|] [|]]); cbn; brk; cbn in *;
       try discriminate; try reflexivity.
@@ -70,7 +70,7 @@ Lemma ids_ok c v f e : ids_okb f e (outs (step c v f e)) = true.
 Proof.
   destruct f as [s i r fl l a o hl]; destruct e as [| | | | |code id k data].
   1-4: destruct s; destruct v as [[|] [|]]; cbn; rewrite ?Z.eqb_refl; reflexivity.
-  - unfold ids_okb, step, timeout; cbn. destruct (r >? 0); destruct s; cbn; rewrite ?Z.eqb_refl; reflexivity.
+  - unfold ids_okb, step, timeout; cbn. destruct a; destruct (r >? 0); destruct s; cbn; rewrite ?Z.eqb_refl; reflexivity.
   - unfold ids_okb; unfold_events; cbn.
     destruct (code_of code); destruct s; try destruct k; try (destruct v as [[|] [|]]); cbn; brk; cbn in *;
       rewrite ?Z.eqb_refl; try discriminate; try reflexivity.
@@ -116,7 +116,7 @@ Proof.
   intros H; destruct f as [s i r fl l a o hl]; cbn in H.
   destruct e as [| | | | |code id k data].
   1-4: destruct s; destruct v as [[|] [|]]; cbn; destruct H as [->| ->]; auto.
-  - unfold step, timeout; cbn. destruct (r >? 0); destruct s; cbn; destruct H as [->| ->]; auto.
+  - unfold step, timeout; cbn. destruct a; destruct (r >? 0); destruct s; cbn; destruct H as [->| ->]; auto.
   - unfold_events; cbn.
     destruct (code_of code); destruct s; try destruct k; try (destruct v as [[|] [|]]); cbn; brk; cbn in *;
       try discriminate; destruct H as [->| ->]; auto.
@@ -180,7 +180,7 @@ Lemma step_alt c v f e :
 Proof.
   destruct f as [s i r fl l a o hl]; destruct e as [| | | | |code id k data].
   1-4: destruct s; destruct v as [[|] [|]]; reflexivity.
-  - unfold step, timeout; cbn. destruct (r >? 0); destruct s; reflexivity.
+  - unfold step, timeout; cbn. destruct a; destruct (r >? 0); destruct s; reflexivity.
   - unfold_events; cbn.
     destruct (code_of code); destruct s; try destruct k; try (destruct v as [[|] [|]]); cbn; brk; cbn in *;
       try discriminate; try reflexivity.
@@ -260,7 +260,7 @@ Proof.
   destruct m as [ls ou lr th]; destruct f as [s i r fl l a o hl]; cbn in H1, H2, H3.
   destruct e as [| | | | |code id k data].
   1-4: destruct s; destruct v as [[|] [|]]; cbn; eexists; (split; [reflexivity|]); minv_solve.
-  - unfold step, timeout; cbn. destruct (r >? 0); destruct s; cbn; eexists; (split; [reflexivity|]); minv_solve.
+  - unfold step, timeout; cbn. destruct a; destruct (r >? 0); destruct s; cbn; eexists; (split; [reflexivity|]); minv_solve.
   - assert (SV' : strict = false \/ v = Repaired) by (destruct strict; auto).
     unfold step, input.
     destruct (fix_ncp v && negb (lcp c) && lcp_only (code_of code)) eqn:NCP.
@@ -331,6 +331,29 @@ Proof.
   reflexivity.
 Qed.
 
+(* ------------------------------------------------------------ 5b. the restart timer runs while waiting *)
+
+Definition TInv (f : fsm) : Prop := waiting (st f) = true -> armed f = true.
+
+Lemma tinv_step c v f e : fix_cells v = true -> TInv f -> TInv (step c v f e).
+Proof.
+  intros FC; destruct v as [fc fn]; cbn in FC; subst fc.
+  unfold TInv; destruct f as [s i r fl l a o hl]; cbn; intros H.
+  destruct fn; destruct e as [| | | | |code id k data].
+  all: try (destruct s; cbn; intros; try discriminate; auto; fail).
+  all: try (unfold step, timeout; cbn; destruct a; destruct (r >? 0); destruct s; cbn; intros; try discriminate; auto; fail).
+  all: unfold_events; cbn;
+    destruct (code_of code); destruct s; try destruct k; cbn; brk; cbn in *; intros;
+      try discriminate; auto.
+Qed.
+
+Lemma tinv_run c v es : fix_cells v = true -> forall f, TInv f -> TInv (run c v f es).
+Proof. intros FC; induction es as [|e es IH]; intros f I; [exact I|]. cbn. apply IH, tinv_step; assumption. Qed.
+
+Lemma timer_armed c es :
+  waiting (st (run c Repaired init es)) = true -> armed (run c Repaired init es) = true.
+Proof. apply (tinv_run c Repaired es eq_refl init). intros H; discriminate. Qed.
+
 (* ------------------------------------------------------------ 6. bounded retransmission *)
 
 Definition is_retrans (a : Act) : bool := is_scr a || is_str a.
@@ -343,7 +366,7 @@ Proof. unfold count_acts. rewrite filter_app, app_length. reflexivity. Qed.
 (* one Timeout in a waiting state: with the counter at zero the negotiation/termination is given up,
    otherwise exactly one request is retransmitted and the counter goes down by one *)
 Lemma timeout_step c v f :
-  waiting (st f) = true ->
+  waiting (st f) = true -> armed f = true ->
   let f' := step c v f ETimeout in
   if restart f >? 0
   then waiting (st f') = true /\ restart f' = restart f - 1 /\ armed f' = true /\
@@ -351,28 +374,28 @@ Lemma timeout_step c v f :
   else (st f' = Closed \/ st f' = Stopped) /\ restart f' = restart f /\
        count_acts is_retrans (map IAct (outs f')) = 0%nat /\ count_acts is_tlf (map IAct (outs f')) = 1%nat.
 Proof.
-  destruct f as [s i r fl l a o hl]; intros W; unfold step, timeout; cbn.
+  destruct f as [s i r fl l a o hl]; cbn; intros W ->; unfold step, timeout; cbn.
   destruct (r >? 0); destruct s; try discriminate; cbn; auto 10.
 Qed.
 
 Lemma timeouts_end c v (n : nat) : forall f,
-  waiting (st f) = true -> restart f = Z.of_nat n ->
+  waiting (st f) = true -> armed f = true -> restart f = Z.of_nat n ->
   let ts := repeat ETimeout (S n) in
   (st (run c v f ts) = Closed \/ st (run c v f ts) = Stopped) /\
   count_acts is_retrans (trace c v f ts) = n /\
   count_acts is_tlf (trace c v f ts) = 1%nat /\
   (forall k, (k <= n)%nat -> waiting (st (run c v f (repeat ETimeout k))) = true).
 Proof.
-  induction n as [|n IH]; intros f W R; cbn zeta.
-  - pose proof (timeout_step c v f W) as T; cbn zeta in T. rewrite R in T. cbn in T.
+  induction n as [|n IH]; intros f W AR R; cbn zeta.
+  - pose proof (timeout_step c v f W AR) as T; cbn zeta in T. rewrite R in T. cbn in T.
     destruct T as (A & _ & B & C).
     cbn [repeat run trace]. rewrite app_nil_r, !count_acts_cons_ev. repeat split; auto.
     intros k Hk. assert (k = 0%nat) by lia; subst; exact W.
-  - pose proof (timeout_step c v f W) as T; cbn zeta in T. rewrite R in T.
+  - pose proof (timeout_step c v f W AR) as T; cbn zeta in T. rewrite R in T.
     replace (Z.of_nat (S n) >? 0) with true in T by (symmetry; apply Z.gtb_lt; lia).
-    destruct T as (W' & R' & _ & B & C).
+    destruct T as (W' & R' & AR' & B & C).
     assert (R'' : restart (step c v f ETimeout) = Z.of_nat n) by lia.
-    specialize (IH _ W' R''); cbn zeta in IH. destruct IH as (I1 & I2 & I3 & I4).
+    specialize (IH _ W' AR' R''); cbn zeta in IH. destruct IH as (I1 & I2 & I3 & I4).
     change (repeat ETimeout (S (S n))) with (ETimeout :: repeat ETimeout (S n)).
     cbn [run trace]. rewrite !count_acts_cons_ev, !count_acts_app, B, C, I2, I3.
     repeat split; auto.
@@ -399,7 +422,7 @@ Proof.
   destruct f as [s i r fl l a o hl]; cbn in H1, H2, H3.
   destruct e as [| | | | |code id k data].
   1-4: destruct s; destruct v as [[|] [|]]; rinv_solve.
-  - unfold step, timeout; cbn. destruct (r >? 0) eqn:E; [apply Z.gtb_lt in E|];
+  - unfold step, timeout; cbn. destruct a; (destruct (r >? 0) eqn:E; [apply Z.gtb_lt in E|]);
       destruct s; rinv_solve.
   - unfold_events; cbn.
     destruct (code_of code); destruct s; try destruct k; try (destruct v as [[|] [|]]); cbn; brk; cbn in *;
@@ -417,6 +440,7 @@ Lemma rinv_init c : 0 <= maxConf c -> 0 <= maxTerm c -> RInv c init.
 Proof. intros; rinv_solve. Qed.
 
 Lemma bounded c v es :
+  fix_cells v = true ->
   0 <= maxConf c -> 0 <= maxTerm c ->
   let f := run c v init es in
   waiting (st f) = true ->
@@ -428,45 +452,17 @@ Lemma bounded c v es :
     count_acts is_retrans (trace c v f ts) = n /\
     count_acts is_tlf (trace c v f ts) = 1%nat.
 Proof.
-  intros HC HT f W.
+  intros FC HC HT f W.
+  assert (AR : armed f = true) by (apply (tinv_run c v es FC init); [intros X; discriminate|exact W]).
   pose proof (rinv_run c v es HC HT init (rinv_init c HC HT)) as (R1 & R2 & R3). fold f in R1, R2, R3.
   exists (Z.to_nat (restart f)). rewrite Z2Nat.id by lia. split; [reflexivity|]. split.
   - destruct (st f) eqn:S; try discriminate; try (apply R2; auto; fail); apply R3; reflexivity.
-  - destruct (timeouts_end c v (Z.to_nat (restart f)) f W) as (A & B & C & _).
+  - destruct (timeouts_end c v (Z.to_nat (restart f)) f W AR) as (A & B & C & _).
     + rewrite Z2Nat.id by lia; reflexivity.
     + auto.
 Qed.
 
-(* ------------------------------------------------------------ 7. the restart timer runs while waiting *)
-
-Definition TInv (f : fsm) : Prop := waiting (st f) = true -> armed f = true.
-
-Lemma tinv_step c f e : TInv f -> TInv (step c Repaired f e).
-Proof.
-  unfold TInv; destruct f as [s i r fl l a o hl]; cbn; intros H.
-  destruct e as [| | | | |code id k data].
-  1-4: destruct s; cbn; intros; try discriminate; auto.
-  - unfold step, timeout; cbn. destruct (r >? 0); destruct s; cbn; intros; try discriminate; auto.
-  - unfold_events; cbn.
-    destruct (code_of code); destruct s; try destruct k; cbn; brk; cbn in *; intros;
-      try discriminate; auto.
-Qed.
-
-Lemma tinv_run c es : forall f, TInv f -> TInv (run c Repaired f es).
-Proof. induction es as [|e es IH]; intros f I; [exact I|]. cbn. apply IH, tinv_step, I. Qed.
-
-Lemma timer_armed c es :
-  waiting (st (run c Repaired init es)) = true -> armed (run c Repaired init es) = true.
-Proof. apply (tinv_run c es init). intros H; discriminate. Qed.
-
 (* ------------------------------------------------------------ 8. a new negotiation starts with a full counter *)
-
-(* histories in which the timer event only happens while the timer is pending (no late callback) *)
-Fixpoint timer_ok (c : cfg) (v : variant) (f : fsm) (es : list Ev) : bool :=
-  match es with
-  | [] => true
-  | e :: es => (match e with ETimeout => armed f | _ => true end) && timer_ok c v (step c v f e) es
-  end.
 
 Definition FInv (c : cfg) (f : fsm) : Prop :=
   (st f = AckRcvd \/ st f = Opened -> restart f = maxConf c) /\ (st f = Opened -> armed f = false).
@@ -479,23 +475,23 @@ Ltac finv_solve :=
   repeat match goal with H : _ \/ ?x = ?x -> _ |- _ => specialize (H (or_intror eq_refl)) end;
   try congruence; auto.
 
-Lemma finv_step c f e :
-  FInv c f -> (e = ETimeout -> armed f = true) -> FInv c (step c Repaired f e).
+Lemma finv_step c f e : FInv c f -> FInv c (step c Repaired f e).
 Proof.
-  destruct f as [s i r fl l a o hl]; cbn; intros (H & H') T; cbn in H, H'.
+  destruct f as [s i r fl l a o hl]; cbn; intros (H & H'); cbn in H, H'.
   destruct e as [| | | | |code id k data].
   1-4: destruct s; finv_solve.
-  - specialize (T eq_refl). unfold step, timeout; cbn. destruct (r >? 0); destruct s; finv_solve.
+  - unfold step, timeout; cbn. destruct a; destruct (r >? 0); destruct s; finv_solve.
   - unfold_events; cbn.
     destruct (code_of code); destruct s; try destruct k; cbn; brk; cbn in *; try discriminate; finv_solve.
 Qed.
 
-Lemma finv_run c es : forall f, FInv c f -> timer_ok c Repaired f es = true -> FInv c (run c Repaired f es).
-Proof.
-  induction es as [|e es IH]; intros f I T; [exact I|]. cbn in *.
-  apply andb_true_iff in T; destruct T as (T1 & T2).
-  apply IH; [apply finv_step; [exact I|intros ->; exact T1]|exact T2].
-Qed.
+Lemma finv_run c es : forall f, FInv c f -> FInv c (run c Repaired f es).
+Proof. induction es as [|e es IH]; intros f I; [exact I|]. cbn. apply IH, finv_step, I. Qed.
+
+Lemma finv_init c : FInv c init.
+Proof. split; cbn; [intros [X|X]; discriminate|discriminate]. Qed.
+Lemma finv_restored c f : FInv c (restore true c f).
+Proof. split; cbn; auto. Qed.
 
 Definition starts_negotiation (s : St) : bool :=
   match s with Starting | Closed | Stopped | Opened => true | _ => false end.
@@ -508,21 +504,23 @@ Proof.
   destruct f as [s i r fl l a o hl]; cbn; intros (H & H') S; cbn in H, H'.
   destruct e as [| | | | |code id k data].
   1-4: destruct s; try discriminate; cbn; intros; try discriminate; auto.
-  - unfold step, timeout; cbn. destruct (r >? 0); destruct s; try discriminate; cbn; intros; try discriminate; auto.
+  - unfold step, timeout; cbn. destruct a; destruct (r >? 0); destruct s; try discriminate; cbn; intros; try discriminate; auto.
   - unfold_events; cbn.
     destruct (code_of code); destruct s; try discriminate; try destruct k; cbn; brk; cbn in *; intros;
       try discriminate; auto.
 Qed.
 
-Lemma fresh_negotiation c es e :
-  let f := run c Repaired init es in
-  timer_ok c Repaired init es = true ->
+(* [start] = a fresh automaton, or one restored into Opened by the (repaired) Restore *)
+Definition start (restored : bool) (c : cfg) : fsm := if restored then restore true c init else init.
+
+Lemma fresh_negotiation c restored es e :
+  let f := run c Repaired (start restored c) es in
   starts_negotiation (st f) = true ->
   existsb is_scr (outs (step c Repaired f e)) = true ->
   restart (step c Repaired f e) = maxConf c /\ negotiating (st (step c Repaired f e)) = true.
 Proof.
-  intros f T. apply fresh_negotiation_step. apply (finv_run c es init); [|exact T].
-  split; cbn; [intros [X|X]; discriminate|discriminate].
+  intros f. apply fresh_negotiation_step. apply finv_run.
+  destruct restored; [apply finv_restored|apply finv_init].
 Qed.
 
 (* ------------------------------------------------------------ 9. witnesses against today's code *)
@@ -604,7 +602,7 @@ Proof. exists [EOpen; EUp; RCA1; RTRe; RCRp]. vm_compute. reflexivity. Qed.
 (* missing irc: a renegotiation started from Opened has no retransmission left *)
 Lemma fresh_negotiation_refuted :
   exists c es e, let f := run c Defective init es in
-    0 < maxConf c /\ timer_ok c Defective init (es ++ [e; ETimeout]) = true /\ st f = Opened /\
+    0 < maxConf c /\ st f = Opened /\
     existsb is_scr (outs (step c Defective f e)) = true /\
     restart (step c Defective f e) = 0 /\
     st (run c Defective f [e; ETimeout]) = Stopped /\
@@ -634,7 +632,6 @@ Proof. vm_compute. repeat split; reflexivity. Qed.
 
 Lemma fresh_nonvac :
   let f := run (mkCfg 2 1 true) Repaired init [EOpen; EUp; RCRp; ETimeout; ETimeout; EInput 2 3 CGood []] in
-  timer_ok (mkCfg 2 1 true) Repaired init [EOpen; EUp; RCRp; ETimeout; ETimeout; EInput 2 3 CGood []] = true /\
   st f = Opened /\ existsb is_scr (outs (step (mkCfg 2 1 true) Repaired f RCRp)) = true /\
   restart (step (mkCfg 2 1 true) Repaired f RCRp) = 2.
 Proof. vm_compute. repeat split; reflexivity. Qed.
